@@ -14,8 +14,10 @@ def run(rep: Report, repo: Repo, tier: str) -> None:
     from ..listener import model
     lm = model(repo)
     rows = [r for k in ("ct_add_test", "ct_add_section", "add_test") for ev in ("DOC", "UNDOC") for r in lm.rows(ev, k)
-            if protocol.default_flags(r)]
+            if ev == "DOC" or protocol.default_flags(r)]   # documented commands: under every setting
     protocol.check_rows(rep, "C11-R5", rows, ["entries", "awaiting"], "test entry protocol")
     rep.rule("C11-R5", "every ct_add_test / ct_add_section / add_test event appends exactly one entry of its own kind (sections are "
                        "entries of their own, in source order)")
     rep.floor("C11-R5", 8, "test protocol rows")
+    # ... and every entry of the list is rendered, once, in list order
+    misc_rules.rule_document_order(rep, repo, "C11-R6")
